@@ -169,6 +169,7 @@ class SimulationAlgorithm(BaseSimulationAlgorithm):
                 type_errors.append(
                     f"Parameter '{param}': Expected type {type_names}, given {type(value).__name__}"
                 )
+                continue
             if param == "patient_number" and value <= 0:
                 value_errors.append(
                     "Patient number (patient_number) need to be a positive integer"
@@ -184,7 +185,7 @@ class SimulationAlgorithm(BaseSimulationAlgorithm):
                     "Parameter 'min_spacing_between_visits': Expected type int or float, "
                     f"given {type(value).__name__}"
                 )
-            if value < 0:
+            elif value < 0:
                 value_errors.append(
                     "Parameter 'min_spacing_between_visits' cannot be negative"
                 )
@@ -249,12 +250,9 @@ class SimulationAlgorithm(BaseSimulationAlgorithm):
                 raise LeaspyAlgoInputError("Dataframe has null value in column TIME")
 
         if self.visit_type == VisitType.RANDOM:
-            if (
-                self.param_study["distance_visit_mean"] <= 0
-                and self.param_study["distance_visit_std"] <= 0
-            ):
+            if self.param_study["distance_visit_mean"] <= 0:
                 raise LeaspyAlgoInputError(
-                    "Distance visit mean (distance_visit_mean) and distance visit std need to be positive"
+                    "Distance visit mean (distance_visit_mean) needs to be positive"
                 )
 
     ## --- SET PARAMETERS ---
@@ -312,23 +310,22 @@ class SimulationAlgorithm(BaseSimulationAlgorithm):
             This method updates the `param_study` attribute of the instance in-place.
         """
 
+        # only copy what is given: missing / ill-typed parameters are reported by `_check_params`
         if self.visit_type == VisitType.DATAFRAME:
-            patient_number = dict_param["df_visits"].groupby("ID").size().shape[0]
-
-            self.param_study = {
-                "patient_number": patient_number,
-                "df_visits": dict_param["df_visits"],
-            }
+            self.param_study = {}
+            if "df_visits" in dict_param:
+                df_visits = dict_param["df_visits"]
+                self.param_study["df_visits"] = df_visits
+                if isinstance(df_visits, pd.DataFrame) and "ID" in df_visits.columns:
+                    self.param_study["patient_number"] = (
+                        df_visits.groupby("ID").size().shape[0]
+                    )
 
         elif self.visit_type == VisitType.RANDOM:
             self.param_study = {
-                "patient_number": dict_param["patient_number"],
-                "first_visit_mean": dict_param["first_visit_mean"],
-                "first_visit_std": dict_param["first_visit_std"],
-                "time_follow_up_mean": dict_param["time_follow_up_mean"],
-                "time_follow_up_std": dict_param["time_follow_up_std"],
-                "distance_visit_mean": dict_param["distance_visit_mean"],
-                "distance_visit_std": dict_param["distance_visit_std"],
+                param: dict_param[param]
+                for param, _ in self._PARAM_REQUIREMENTS[VisitType.RANDOM.value]
+                if param in dict_param
             }
 
             # Add optional spacing param if provided
@@ -632,7 +629,8 @@ class SimulationAlgorithm(BaseSimulationAlgorithm):
             3: 0.001,  # 0.001 years ~ 0.365 days (~1 day) - User will never want precision above 1 day.
         }
 
-        rounding_precision = None
+        # finest precision when the spacing is below every step
+        rounding_precision = max(rounding_options)
         for precision, val in sorted(rounding_options.items()):
             if val <= min_spacing_between_visits:
                 rounding_precision = precision
